@@ -116,7 +116,7 @@ func (w *world) tokOfValue(v interface{}) int {
 		}
 		return -3
 	case nil:
-		return -4
+		return 5 // the nil value
 	}
 	return -2
 }
@@ -124,6 +124,9 @@ func (w *world) tokOfValue(v interface{}) int {
 func (w *world) valueOfTok(t int) reflect.Value {
 	if t >= 100 {
 		return reflect.ValueOf(w.hs[t-100-1])
+	}
+	if t == 5 { // the nil value, handed over as the reflect.Value of nil (the zero Value)
+		return reflect.ValueOf(nil)
 	}
 	if t == 3 { // the addressable value
 		p := reflect.New(reflect.TypeOf(int64(0))).Elem()
@@ -150,17 +153,26 @@ func (w *world) do(c Call) (res Res) {
 	e := w.hs[c.H-1]
 	switch c.Op {
 	case "Define":
-		if c.V == 3 || c.V >= 100 && c.V%2 == 0 {
+		if c.V == 5 && c.H%2 == 1 {
+			return errRes(e.Define(c.N, nil))
+		}
+		if c.V == 3 || c.V == 5 || c.V >= 100 && c.V%2 == 0 {
 			return errRes(e.DefineValue(c.N, w.valueOfTok(c.V)))
 		}
 		return errRes(e.Define(c.N, w.valueOfTok(c.V).Interface()))
 	case "DefineGlobal":
-		if c.V == 3 || c.V >= 100 && c.V%2 == 0 {
+		if c.V == 5 && c.H%2 == 1 {
+			return errRes(e.DefineGlobal(c.N, nil))
+		}
+		if c.V == 3 || c.V == 5 || c.V >= 100 && c.V%2 == 0 {
 			return errRes(e.DefineGlobalValue(c.N, w.valueOfTok(c.V)))
 		}
 		return errRes(e.DefineGlobal(c.N, w.valueOfTok(c.V).Interface()))
 	case "Set":
-		if c.V == 3 || c.V%2 == 0 {
+		if c.V == 5 && c.H%2 == 1 {
+			return errRes(e.Set(c.N, nil))
+		}
+		if c.V == 3 || c.V == 5 || c.V%2 == 0 {
 			return errRes(e.SetValue(c.N, w.valueOfTok(c.V)))
 		}
 		return errRes(e.Set(c.N, w.valueOfTok(c.V).Interface()))
@@ -171,6 +183,9 @@ func (w *world) do(c Call) (res Res) {
 			var rv reflect.Value
 			rv, err = e.GetValue(c.N)
 			if err == nil {
+				if !rv.IsValid() {
+					return Res{K: "val", I: -5, S: []string{"GetValue returned the zero reflect.Value and no error"}}
+				}
 				v = rv.Interface()
 			}
 		} else {
